@@ -73,6 +73,27 @@ pub struct CaseCtx {
     pub aborts: Aborts,
     pub in_update: AtomicU32,
     pub max_in_update: AtomicU32,
+    /// channels that belong to the case, not to a command (like a sender kept in an app's model): any task of
+    /// any command can send on them or wait for them; they never close
+    pub gchans: Mutex<HashMap<u32, GChan>>,
+}
+
+#[derive(Clone)]
+pub struct GChan {
+    pub tx: futures::channel::mpsc::UnboundedSender<u32>,
+    pub rx: Arc<Mutex<futures::channel::mpsc::UnboundedReceiver<u32>>>,
+}
+
+/// the case-wide channel g (made on first use)
+pub fn gchan(g: u32) -> GChan {
+    let ctx = CASE.with(|c| c.borrow().clone()).expect("no case installed");
+    let mut m = ctx.gchans.lock().unwrap();
+    m.entry(g)
+        .or_insert_with(|| {
+            let (tx, rx) = futures::channel::mpsc::unbounded();
+            GChan { tx, rx: Arc::new(Mutex::new(rx)) }
+        })
+        .clone()
 }
 
 thread_local! {
@@ -96,6 +117,7 @@ pub fn install_case(table: Table) -> Arc<CaseCtx> {
         aborts: Arc::new(Mutex::new(HashMap::new())),
         in_update: AtomicU32::new(0),
         max_in_update: AtomicU32::new(0),
+        gchans: Mutex::new(HashMap::new()),
     });
     CASE.with(|c| *c.borrow_mut() = Some(ctx.clone()));
     ctx
